@@ -296,6 +296,77 @@ class TargetValuesSpace(_Base):
                               observed=val, expected=ref)
 
 
+class SignedTargetsSpace(_Base):
+    """default targets of both signs (values that cancel inside a chunk: +v and -v) x chunkings x max_distance."""
+
+    def __init__(self, tier):
+        self.lay = [((0, 5.0), (1, -5.0)), ((2, 5.0), (9, -5.0)), ((5, 3.0), (6, -3.0)), ((0, 4.0), (11, -4.0)), ((1, 2.0), (2, -1.0), (3, -1.0)),
+                    ((4, -7.0),), ((7, 2.5), (8, -2.5), (10, 1.0))]
+        self.mds = [1.0, 2.5, None]
+        self.funcs = ("proximity", "allocation")
+        self.chs = chunkings(*SHAPE)[1::2] if tier == "quick" else chunkings(*SHAPE)
+        self.radices = [len(self.funcs), len(self.lay), len(self.mds), len(self.chs)]
+        self.name = "signed_default_targets_3x4"
+        self.size = int(np.prod(self.radices))
+        self.weight = 2.0
+
+    def describe(self, rank):
+        fi, li, mi, ci = unrank_product(rank, self.radices)
+        return {"function": self.funcs[fi], "cells(value)": self.lay[li], "max_distance": self.mds[mi], "chunks": self.chs[ci]}
+
+    def run(self, lo, hi, out):
+        for rank in range(lo, hi):
+            fi, li, mi, ci = unrank_product(rank, self.radices)
+            a = np.zeros(SHAPE)
+            for c, v in self.lay[li]:
+                a.flat[c] = v
+            cells = tuple(c for c, _ in self.lay[li])
+            # distinct |values| are not guaranteed: allocation ties are resolved through the generic comparison
+            self.one(out, rank, self.funcs[fi], a, "unit_desc", "EUCLIDEAN", self.mds[mi], self.chs[ci], cells)
+
+
+NONUNIFORM = {
+    "y_stretched": (np.array([0.0, 1.0, 3.0]), np.array([0.0, 1.0, 2.0, 3.0]), "x"),       # chunk only the evenly spaced axis
+    "x_stretched": (np.array([2.0, 1.0, 0.0]), np.array([0.0, 0.5, 1.5, 3.5]), "y"),
+}
+
+
+class NonUniformCoordsSpace(_Base):
+    """coordinate axes that are not evenly spaced (the NumPy path uses the true coordinates): with a finite max_distance only
+    the evenly spaced axis is chunked (the halo is sized from the mean cell size); with unbounded distance every chunking."""
+
+    def __init__(self, tier):
+        self.lay = layouts(SHAPE, 1) + [(2, 9), (0, 11)]
+        self.cfg = [("y_stretched", 1.5), ("y_stretched", None), ("x_stretched", 1.0), ("x_stretched", None)]
+        self.chs = chunkings(*SHAPE)
+        self.radices = [len(FUNCS), len(self.lay), len(self.cfg), len(self.chs)]
+        self.name = "non_uniform_coordinates_3x4"
+        self.size = int(np.prod(self.radices))
+        self.weight = 2.0
+
+    def coords(self, cname, shape):
+        if cname in NONUNIFORM:
+            return NONUNIFORM[cname][0], NONUNIFORM[cname][1]
+        return super().coords(cname, shape)
+
+    def describe(self, rank):
+        fi, li, gi, ci = unrank_product(rank, self.radices)
+        return {"function": FUNCS[fi], "targets": self.lay[li], "coords": self.cfg[gi][0], "max_distance": self.cfg[gi][1], "chunks": self.chs[ci]}
+
+    def run(self, lo, hi, out):
+        for rank in range(lo, hi):
+            fi, li, gi, ci = unrank_product(rank, self.radices)
+            cname, md = self.cfg[gi]
+            ch = self.chs[ci]
+            free_axis = NONUNIFORM[cname][2]
+            if md is not None and ((free_axis == "x" and len(ch[0]) > 1) or (free_axis == "y" and len(ch[1]) > 1)):
+                out.case(outcome=None, nontrivial=False, calls=0)
+                out.count("skipped:finite max_distance with the stretched axis chunked (halo from mean cell size)")
+                continue
+            cells = self.lay[li]
+            self.one(out, rank, FUNCS[fi], layout_array(SHAPE, cells), cname, "EUCLIDEAN", md, ch, cells)
+
+
 class JointComputeSpace(_Base):
     """several lazy proximity-family results (different functions / parameters / rasters with different coordinates)
     computed together in ONE graph: each must still equal its own NumPy result."""
@@ -461,6 +532,8 @@ def build(tier):
                   ch_stride=2 if tier == "quick" else 1),
         NanSpace(tier),
         TargetValuesSpace(tier),
+        SignedTargetsSpace(tier),
+        NonUniformCoordsSpace(tier),
         JointComputeSpace(tier),
         ScheduleSpace(tier),
         JitConformance(tier),
